@@ -30,7 +30,9 @@ class Driver:
 
     def __init__(self, name: str):
         self.name = name
-        path = os.path.join(BIN, name)
+        path = os.path.join(os.environ.get("AV_BIN_DIR") or BIN, name)
+        if not os.path.exists(path):
+            path = os.path.join(BIN, name)
         if not os.path.exists(path):
             raise InfraError(f"driver executable missing: {path}")
         self.p = subprocess.Popen([path], stdin=subprocess.PIPE, stdout=subprocess.PIPE,
